@@ -1,4 +1,5 @@
 import TLVerif.Codec.TL1
+import TLVerif.Codec.TL1Wf
 import TLVerif.Generated.RandFacts
 /-!
 Random filling of generated objects (C18): a model of `basictl.RandGenerator` (pkg/basictl/basictl.go) over an
@@ -31,6 +32,12 @@ structure FieldX where
 abbrev GenInfo := Nat → Nat → FieldX
 
 def noInfo : Nat → FieldX := fun _ => {}
+
+/-- the field's value is drawn directly (`RandomFieldMask` / `RandomSize`), its type is not consulted -/
+def FieldX.drawn (x : FieldX) : Bool := x.usedAsMask || x.usedAsSize
+
+/-- an unwrap struct has no `FillRandom` call of its own (typeRandomCode goes straight to its only field) -/
+def structGx (gi : GenInfo) (ty : Nat) (s : StructD) : Nat → FieldX := if s.isUnwrap then noInfo else gi ty
 
 /-! ### `basictl.RandGenerator` -/
 
@@ -191,8 +198,7 @@ def fillTL1 (d : Desc) (gi : GenInfo) : Nat → Fl
     | some (.prim k) => .ok (fillPrim k rg)
     | some (.struct s) =>
       if s.originTL2 then .error .shape else
-      -- an unwrap struct has no `FillRandom` call of its own (typeRandomCode goes straight to its only field)
-      match fillFieldsWith (fillTL1 d gi fuel) (if s.isUnwrap then noInfo else gi ty) params s.fields 0 [] rg with
+      match fillFieldsWith (fillTL1 d gi fuel) (structGx gi ty s) params s.fields 0 [] rg with
       | .error e => .error e
       | .ok (fs, rg') => .ok (.struct fs, rg')
     | some (.union u) =>
@@ -232,6 +238,86 @@ def fillRandom (d : Desc) (gi : GenInfo) (fuel ty : Nat) (src : Nat → Nat) : F
 
 /-- recursion budget used by the driver: every terminating run of the corpus nests far less -/
 def fillFuel (d : Desc) : Nat := (Rand.maxDepth + 3) * (d.insts.size + 1)
+
+/-! ### decidable guards of the termination theorem (`Props/C18.lean`), evaluated per factory item (T3)
+
+`IncreaseDepth` saturates at `maxDepth` but `DecreaseDepth` always decrements, so an increase performed at the limit
+*lowers* the depth afterwards.  `capFree` excludes exactly that: every body that can run right after a saturating
+increase (elements of tuples, the type of a recursive field) is `quiet` — at the limit it reaches no further
+`IncreaseDepth` site.  `fillRanked` is a rank certificate for the references that do not increase the depth
+(plain struct fields, union variants): it fails on recursion through a union, whose `FillRandom` never increases it. -/
+
+/-- conditional on a bit of an earlier `#` field of this struct: at the depth limit that field is 0, the field absent -/
+def maskedByLocalU32 (d : Desc) (all : List Field) (f : Field) : Bool :=
+  match f.mask with
+  | some (.field j, _) =>
+    match all[j]? with
+    | some g => (match d.get? g.ty with | some (.prim .u32) => true | _ => false)
+    | none => false
+  | _ => false
+
+def quietFields (d : Desc) (q : Nat → Bool) (gx : Nat → FieldX) (all : List Field) : List Field → Nat → Bool
+  | [], _ => true
+  | f :: fs, i =>
+    (f.isBit || maskedByLocalU32 d all f || (!(gx i).recursive && ((gx i).drawn || q f.ty))) &&
+    quietFields d q gx all fs (i + 1)
+
+/-- `FillRandom` of `ty`, started at the depth limit, reaches no `IncreaseDepth` site (and is a finite recursion) -/
+def quiet (d : Desc) (gi : GenInfo) : Nat → Nat → Bool
+  | 0, _ => false
+  | n + 1, ty =>
+    match d.get? ty with
+    | none => true
+    | some (.prim _) => true
+    | some (.struct s) => s.originTL2 || quietFields d (quiet d gi n) (structGx gi ty s) s.fields s.fields 0
+    | some (.union u) => (match u.variants with | (vi, _) :: _ => quiet d gi n vi | [] => true)
+    | some (.array _) => false
+    | some (.dict _) => false
+
+def capFreeFields (q : Nat → Bool) (gx : Nat → FieldX) : List Field → Nat → Bool
+  | [], _ => true
+  | f :: fs, i => (f.isBit || !(gx i).recursive || (gx i).drawn || q f.ty) && capFreeFields q gx fs (i + 1)
+
+def Inst.capFree (d : Desc) (gi : GenInfo) (ty : Nat) : Inst → Bool
+  | .struct s => capFreeFields (quiet d gi (d.insts.size + 1)) (structGx gi ty s) s.fields 0
+  | .array a => !a.isTuple || quiet d gi (d.insts.size + 1) a.elem.ty
+  | _ => true
+
+def fieldsRanked (rk : List Nat) (r : Nat) (gx : Nat → FieldX) : List Field → Nat → Bool
+  | [], _ => true
+  | f :: fs, i =>
+    (f.isBit || (gx i).recursive || (gx i).drawn || decide (rkAt rk f.ty < r)) && fieldsRanked rk r gx fs (i + 1)
+
+def Inst.fillRanked (gi : GenInfo) (rk : List Nat) (ty : Nat) : Inst → Bool
+  | .struct s => fieldsRanked rk (rkAt rk ty) (structGx gi ty s) s.fields 0
+  | .union u => u.variants.all (fun p => decide (rkAt rk p.1 < rkAt rk ty))
+  | _ => true
+
+/-- `p ty inst` for every instance of `S` -/
+def Desc.allOnI (d : Desc) (S : Nat → Bool) (p : Nat → Inst → Bool) : Bool :=
+  (List.range d.insts.size).all fun i =>
+    !S i || match d.get? i with | some inst => p i inst | none => true
+
+/-- the guard of `fill_terminates`: ranks bounded by the number of instances, rank certificate, no saturating increase -/
+def Desc.fillGuard (d : Desc) (gi : GenInfo) (rk : List Nat) (S : Nat → Bool) : Bool :=
+  d.allOnI S (fun i _ => decide (rkAt rk i ≤ d.insts.size)) && d.allOnI S (Inst.fillRanked gi rk) && d.allOnI S (Inst.capFree d gi)
+
+def fieldsRankStep (rk : List Nat) (gx : Nat → FieldX) : List Field → Nat → Nat → Nat
+  | [], _, m => m
+  | f :: fs, i, m =>
+    fieldsRankStep rk gx fs (i + 1)
+      (if f.isBit || (gx i).recursive || (gx i).drawn then m else max m (rkAt rk f.ty + 1))
+
+def Desc.fillRankStep (d : Desc) (gi : GenInfo) (rk : List Nat) : List Nat :=
+  (List.range d.insts.size).map fun i =>
+    match d.get? i with
+    | some (.struct s) => fieldsRankStep rk (structGx gi i s) s.fields 0 0
+    | some (.union u) => u.variants.foldl (fun m p => max m (rkAt rk p.1 + 1)) 0
+    | _ => 0
+
+/-- candidate rank certificate (unverified helper: the theorem takes any `rk` passing `fillGuard`) -/
+def Desc.computeFillRanks (d : Desc) (gi : GenInfo) : List Nat :=
+  (List.range (d.insts.size + 1)).foldl (fun rk _ => d.fillRankStep gi rk) (List.replicate d.insts.size 0)
 
 /-- splitmix64: the word sequence of the harness `Rand` for a seed -/
 def splitmix (seed i : Nat) : Nat :=
